@@ -16,7 +16,7 @@ GROUPS = [
       enforce='gdsii_read_record', replace=['big_endian_swap16/big_endian_swap16_small'], replace_extern=STDIO,
       defines={'VF_TAPE_MAX': 128, 'VF_BUFCAP': 96}, kind='bounded',
       bound='loop-free function; explored with caller buffers of up to 96 bytes and files of up to 128 bytes (every byte, length, start position and declared record length 0..65535 arbitrary); a 65537-byte buffer did not fit CBMC memory'),
-    G('gds_units', tu='src/library.cpp', roots=['gdstk::gds_units'], entry='h_gds_units', enforce='gds_units',
+    G('gds_units', tier='thorough', timeout=3600, tu='src/library.cpp', roots=['gdstk::gds_units'], entry='h_gds_units', enforce='gds_units',
       replace=['gdsii_read_record', 'big_endian_swap64/big_endian_swap64_small', 'gdsii_real_to_double'],
       replace_extern=['fopen', 'fclose', 'fputs'], defines={'VF_TAPE_MAX': 4096},
       bound='none: the record loop is closed by a loop contract (invariant: handle open, position inside the file; variant: bytes left); file length up to 4096 bytes'),
@@ -25,8 +25,8 @@ GROUPS = [
       defines={'VF_TAPE_MAX': 64}, unwind=16, kind='bounded', spec_headers=HDR + ['spec/oasis_stream.h'],
       bound='loop-free function; file length up to 64 bytes (header 14 + version string + real), every byte and every length arbitrary'),
     G('oas_validate', tu='src/library.cpp', roots=['gdstk::oas_validate'], entry='h_oas_validate', enforce='oas_validate',
-      replace=['checksum32', 'little_endian_swap32/little_endian_swap32_id'], replace_extern=['fopen', 'fclose', 'fputs', 'fread', 'fseek', 'ftell', 'crc32'],
-      defines={'VF_TAPE_MAX': 64}, unwind=2, kind='bounded',
+      replace=['checksum32', 'little_endian_swap32/little_endian_swap32_id'], replace_extern=['fopen', 'fclose', 'fputs', 'fread/fread_whole', 'fseek', 'ftell', 'crc32'],
+      defines={'VF_TAPE_MAX': 64}, unwind=2, unwindset={'__CPROVER_contracts_write_set_check_assigns_clause_inclusion.0': 20, 'memcmp.0': 16}, kind='bounded',
       bound='file length up to 64 bytes (the 32 KiB chunk loops are then not entered: unwinding assertions check that), every byte and length arbitrary'),
     G('gds_timestamp', tu='src/library.cpp', roots=['gdstk::gds_timestamp'], entry='h_gds_timestamp', enforce='gds_timestamp',
       replace=['gdsii_read_record', 'big_endian_swap16/big_endian_swap16_small'],
@@ -34,8 +34,8 @@ GROUPS = [
       bound='read-only mode; record loop closed by a loop contract; file length up to 4096 bytes'),
     G('read_rawcells', tu='src/rawcell.cpp', roots=['gdstk::read_rawcells'], entry='h_read_rawcells', enforce='read_rawcells',
       replace=['gdsii_read_record'], replace_extern=['fopen', 'fclose', 'fputs', 'ftell'],
-      defines={'VF_TAPE_MAX': 24}, unwind=8, kind='bounded', timeout=3000,
-      bound='file length up to 24 bytes (up to 6 records), every byte arbitrary; all loops unwound 8 times with unwinding assertions'),
+      defines={'VF_TAPE_MAX': 16}, unwind=6, kind='bounded', timeout=2400, tier='thorough',
+      bound='file length up to 16 bytes (up to 4 records), every byte arbitrary; all loops unwound 6 times with unwinding assertions'),
 ]
 TRUSTED_BASE = ['clang 14 AST', 'tools/cxx2c.py lowering', 'cbmc 6.11.0 (dfcc + SAT)', 'side-car contracts']
 ASSUMPTIONS = [
